@@ -262,6 +262,44 @@ class DynamicConstantProvider(DelegatingConstantProvider):
             self.add_value(value)
             self.add_value(self.STRING_FUNCTION_LOOKUP[name](value))
 
+    def add_value_for_startswith(self, value: str, prefix: str | tuple[str, ...]) -> None:
+        """Entry point for the instrumented code. Add a string that starts with a prefix.
+
+        Called right before ``value.startswith(prefix)`` is executed. Nothing is
+        added unless this is the string method, i.e., unless value and prefix(es) are
+        strings.
+
+        Args:
+            value: The object whose ``startswith`` method is called
+            prefix: The argument of the call: a prefix or a tuple of prefixes
+        """
+        value = unwrap(value)
+        prefix = unwrap(prefix)
+        if type(value) is not str:
+            return
+        for candidate in prefix if type(prefix) is tuple else (prefix,):
+            if type(candidate) is str:
+                self.add_value(candidate + value)
+
+    def add_value_for_endswith(self, value: str, suffix: str | tuple[str, ...]) -> None:
+        """Entry point for the instrumented code. Add a string that ends with a suffix.
+
+        Called right before ``value.endswith(suffix)`` is executed. Nothing is added
+        unless this is the string method, i.e., unless value and suffix(es) are
+        strings.
+
+        Args:
+            value: The object whose ``endswith`` method is called
+            suffix: The argument of the call: a suffix or a tuple of suffixes
+        """
+        value = unwrap(value)
+        suffix = unwrap(suffix)
+        if type(value) is not str:
+            return
+        for candidate in suffix if type(suffix) is tuple else (suffix,):
+            if type(candidate) is str:
+                self.add_value(value + candidate)
+
 
 def _find_modules_with_constants(project_path: str | os.PathLike) -> OrderedSet[str]:
     modules: OrderedSet[str] = OrderedSet()
